@@ -862,7 +862,8 @@ fn mutate_last_state_proof(
             note = format!("header {} replaced by block #{}", i, n);
         }
         4 if !headers.is_empty() => {
-            let i = rng.usize_below(headers.len());
+            // (with a reorg section: half of the time one of its headers)
+            let i = if nr > 0 && rng.chance(1, 2) { rng.usize_below(nr) } else { rng.usize_below(headers.len()) };
             headers[i] = mutate_verifiable(sim, &headers[i], rng);
             note = format!("header {} altered", i);
         }
@@ -929,7 +930,7 @@ fn mutate_last_state_proof(
         }
         11 if !headers.is_empty() => {
             // total difficulty of one header's parent root
-            let i = rng.usize_below(headers.len());
+            let i = if nr > 0 && rng.chance(1, 2) { rng.usize_below(nr) } else { rng.usize_below(headers.len()) };
             let root = alter_digest(&headers[i].parent_chain_root(), rng);
             headers[i] = headers[i].clone().as_builder().parent_chain_root(root).build();
             note = format!("alter parent chain root of header {}", i);
